@@ -101,7 +101,7 @@ def err_text(e: BaseException) -> str:
     if code:
         code = str(code).split(':')[-1]
         return {'FODT0001': 'ERR:OverflowError', 'FORG0001': 'ERR:ValueError', 'FODT0002': 'ERR:FODT0002',
-                'FOAR0002': 'ERR:OverflowError', 'XPTY0004': 'ERR:TypeError'}.get(code, 'ERR:' + code)
+                'XPTY0004': 'ERR:TypeError'}.get(code, 'ERR:' + code)
     if isinstance(e, ZeroDivisionError) or type(e).__name__ == 'DivisionByZero':
         return 'ERR:ZeroDivisionError'
     if isinstance(e, (ValueError, OverflowError, TypeError)) and type(e).__module__ == 'builtins':
@@ -291,7 +291,10 @@ def run_impl_ext(case: dict):
         return ('1' if eq else '0') + ('1' if ne else '0')
     if op == 'lexdt':
         kind, text = case['k'], case['s']
-        cls = Time if kind == 'time' else classes()[('dt' if kind == 'dateTime' else 'd') + ('11' if ver == '1.1' else '10')]
+        if kind in G_KINDS:
+            cls = g_class(kind, ver)
+        else:
+            cls = Time if kind == 'time' else classes()[('dt' if kind == 'dateTime' else 'd') + ('11' if ver == '1.1' else '10')]
         if via == 'xpath' and "'" not in text:
             x = ctx_eval(ver, "xs:%s('%s')" % (kind, text))[0]
         else:
@@ -331,6 +334,51 @@ def run_impl_ext(case: dict):
         x = ctx_eval(version_of(ck), "xs:%s(%s)" % (to, xs_ctor(ck, a)))[0]
         tk = ('d' if to == 'date' else 'dt') + ck[-2:]
         return canon(x, classes()[tk])
+    if op == 'fmtcomp':
+        # component extraction through a picture string: fn:format-dateTime / format-date / format-time
+        ck, a = case['cls'], case['a']
+        if ck == 't':
+            expr = "format-time(xs:time('%s'), '[H]|[m]|[s]|[f000001]|[Z]')" % time_lexical(a)
+            vv = '1.0'
+        else:
+            pic = '[Y]|[E]|[M]|[D]|[Z]' if is_date(ck) else '[Y]|[E]|[M]|[D]|[H]|[m]|[s]|[f000001]|[Z]'
+            expr = "format-%s(%s, '%s')" % ('date' if is_date(ck) else 'dateTime', xs_ctor(ck, a), pic)
+            vv = version_of(ck)
+        out = hist_eval(vv, expr, None, None, xp3=True)[0]
+        parts = out.split('|')
+        zs = parts[-1]
+        tzv = 'n' if zs == '' else str((1 if zs[0] == '+' else -1) * (int(zs[1:3]) * 60 + int(zs[4:6]))) if len(zs) == 6 and zs[0] in '+-' and zs[3] == ':' else '?' + zs
+        if ck == 't':
+            h_, mi_, s_, f_ = parts[:4]
+            nums = [2000, 1, 1, int(h_), int(mi_), int(s_) * 10 ** 6 + int(f_)]
+        else:
+            y_ = int(parts[0]) * (-1 if parts[1].lower() in ('bc', 'bce') else 1)
+            if is_date(ck):
+                nums = [y_, int(parts[2]), int(parts[3]), 0, 0, 0]
+            else:
+                nums = [y_, int(parts[2]), int(parts[3]), int(parts[4]), int(parts[5]), int(parts[6]) * 10 ** 6 + int(parts[7])]
+        return ';'.join(map(str, nums)) + ';' + tzv
+    if op == 'seqfn':
+        # two-element sequences through fn:max/min/distinct-values/index-of/deep-equal/sort (XPath 3.1 parser)
+        ck, fn = case['cls'], case['fn']
+        ea, eb = xs_ctor(ck, case['a']), xs_ctor(ck, case['b'])
+        expr = {'max': f'max(({ea}, {eb}))', 'min': f'min(({ea}, {eb}))', 'distinct': f'count(distinct-values(({ea}, {eb})))',
+                'index-of': f'count(index-of(({ea}), {eb}))', 'deep-equal': f'deep-equal({ea}, {eb})', 'sort': f'sort(({ea}, {eb}))[1]'}[fn]
+        r = hist_eval(version_of(ck), expr, None, case.get('itz'), xp3=True)[0]
+        if fn in ('max', 'min', 'sort'):
+            return canon(r, classes()[ck])
+        return str(int(r)) if not isinstance(r, bool) else ('1' if r else '0')
+    if op == 'durdiv':
+        from fractions import Fraction
+        k, x, y = case['k'], case['x'], case['y']
+        mkd = (lambda v: "xs:yearMonthDuration('%s')" % ym_lex(v)) if k == 'ym' else (lambda v: "xs:dayTimeDuration('%s')" % dur_lex(v))
+        r = ctx_eval(ver, f'{mkd(x)} div {mkd(y)}')[0]
+        if type(r) is not Decimal:
+            return '?' + type(r).__name__ + ':' + repr(r)
+        sign, digits, exp = r.normalize().as_tuple()
+        if not any(digits):
+            return '0E0'     # xs:decimal has one zero
+        return f'{"-" if sign else ""}{"".join(map(str, digits))}E{exp}'
     if op == 'cmpctx':
         ck = case['cls']
         ea, eb = xs_ctor(ck, case['a']), xs_ctor(ck, case['b'])
@@ -344,7 +392,7 @@ def run_impl(case: dict) -> str:
     """the real code on one case, canonical text (same shape as the driver's `model=` field)"""
     from elementpath.datatypes import DayTimeDuration, YearMonthDuration, Duration
     op, ck, via = case['op'], case.get('cls', 'dt10'), case.get('via', 'api')
-    if op in ('tmk', 'tadd', 'tsub', 'tdiff', 'tcmp', 'tadjust', 'gmk', 'gcast', 'gcmp', 'cmpctx', 'durop', 'dcast', 'lexdt'):
+    if op in ('tmk', 'tadd', 'tsub', 'tdiff', 'tcmp', 'tadjust', 'gmk', 'gcast', 'gcmp', 'cmpctx', 'durop', 'dcast', 'lexdt', 'seqfn', 'durdiv', 'fmtcomp'):
         try:
             return run_impl_ext(case)
         except Exception as e:
@@ -468,7 +516,11 @@ def line_of(case: dict) -> str:
     if op == 'tdiff':
         itz = case.get('itz')
         return f'op=tdiff A={vstr(fill_tz(tuple(case["a"]), itz))} B={vstr(fill_tz(tuple(case["b"]), itz))}'
-    if op in ('tcmp', 'cmpctx'):
+    if op == 'fmtcomp':
+        return f'op=comp A={vstr(case["a"])} V=10 PIC=1'     # era year = the internal year number
+    if op == 'durdiv':
+        return 'op=pyord N=1'      # the quotient is checked against an exact-rational oracle in compare()
+    if op in ('tcmp', 'cmpctx', 'seqfn'):
         itz = f' ITZ={case["itz"]}' if case.get('itz') is not None else ''
         return f'op={"tcmp" if op == "tcmp" else "cmp"} A={vstr(case["a"])} B={vstr(case["b"])}{itz}'
     if op == 'tadjust':
@@ -547,8 +599,7 @@ def parse_answer(ans: str):
 def finding_tags(ans: str) -> list:
     """ids of the listed findings whose trigger predicate (computed by the driver from the input) holds"""
     parts = dict(p.split('=', 1) for p in ans.split(' ') if '=' in p)
-    return (['F11d'] if parts.get('inK') == '1' else []) + (['F11n'] if parts.get('inN') == '1' else []) + \
-        (['F11o'] if parts.get('inO') == '1' else [])
+    return ['F11d'] if parts.get('inK') == '1' else []
 
 
 def answer_field(ans: str, key: str):
@@ -750,7 +801,19 @@ def gen_ext_cases(rng, n):
             if fa[1] == 2 and fa[2] == 29 and kind == 'gMonthDay':
                 pass
             cases.append({'op': 'gcmp', 'ver': ver, 'k': kind, 'fa': fa, 'fb': fb, 'itz': rng.choice([None, None, 0, 840, -300])})
-        elif r < 0.955:
+        elif r < 0.945:
+            ck = rng.choice(['dt10', 'dt11', 'd10', 'd11'])
+            v = gen_value(rng, ck, allow_huge=False)
+            w = gen_target_near(rng, v, ck) if rng.random() < 0.7 else of_local(local_us(v) - ((v[4] or 0) - (rng.choice(TZS) or 0)) * UM, rng.choice(TZS))
+            if is_date(ck):
+                w = w[:3] + (0,) + w[4:]
+            cases.append({'op': 'seqfn', 'cls': ck, 'fn': rng.choice(['max', 'min', 'distinct', 'index-of', 'deep-equal', 'sort']),
+                          'a': v, 'b': w, 'itz': rng.choice([None, 0, 840, -840, -300, 330])})
+        elif r < 0.95:
+            ck = rng.choice(['dt10', 'dt11', 'd10', 'd11', 't'])
+            v = gen_time(rng) if ck == 't' else gen_value(rng, ck, allow_huge=False)
+            cases.append({'op': 'fmtcomp', 'cls': ck, 'a': v})
+        elif r < 0.96:
             ck = rng.choice(['dt10', 'dt11', 'd10', 'd11'])
             cases.append({'op': 'dcast', 'cls': ck, 'to': rng.choice(['date', 'dateTime']), 'a': gen_value(rng, ck, allow_huge=False)})
         else:
@@ -772,6 +835,8 @@ def xsd_lexical(kind: str, text: str):
     and the year numbering are left to the value mapping (the driver's spec)."""
     t = text.strip(' \t\n\r')
     D = '0123456789'
+    if kind in G_KINDS:
+        return xsd_lexical_g(kind, t)
 
     def num(st, lo, hi):
         if len(st) == 2 and st[0] in D and st[1] in D and lo <= int(st) <= hi:
@@ -827,6 +892,50 @@ def xsd_lexical(kind: str, text: str):
                 return None
         us = int((fr + '000000')[:6]) if fr else 0
     return (neg, year, mo, d, h, mi, sec, us, tz)
+
+
+def xsd_lexical_g(kind: str, t: str):
+    """gYearLexicalRep ::= yearFrag timezoneFrag?, gYearMonth ::= yearFrag '-' monthFrag tz?, gMonth ::= '--' monthFrag tz?,
+    gMonthDay ::= '--' monthFrag '-' dayFrag tz?, gDay ::= '---' dayFrag tz?  (XSD 1.1 §3.3.11-15); returns (year, month, day, tz)
+    with the lexical year number, or None"""
+    D = '0123456789'
+
+    def num(st, lo, hi):
+        return int(st) if len(st) == 2 and st[0] in D and st[1] in D and lo <= int(st) <= hi else None
+    tz = None
+    if t.endswith('Z'):
+        tz, t = 0, t[:-1]
+    elif len(t) >= 6 and t[-6] in '+-' and t[-3] == ':':
+        hh, mm = num(t[-5:-3], 0, 14), num(t[-2:], 0, 59)
+        if hh is None or mm is None or (hh == 14 and mm != 0):
+            return None
+        tz = (hh * 60 + mm) * (-1 if t[-6] == '-' else 1)
+        t = t[:-6]
+
+    def year(ys):
+        neg = ys.startswith('-')
+        b = ys[1:] if neg else ys
+        if len(b) < 4 or any(c not in D for c in b) or (len(b) > 4 and b[0] == '0'):
+            return None
+        return -int(b) if neg else int(b), neg
+    if kind == 'gYear':
+        y = year(t)
+        return None if y is None else (y[0], 0, 0, tz, y[1])
+    if kind == 'gYearMonth':
+        if len(t) < 3 or t[-3] != '-':
+            return None
+        y, mo = year(t[:-3]), num(t[-2:], 1, 12)
+        return None if y is None or mo is None else (y[0], mo, 0, tz, y[1])
+    if kind == 'gMonth':
+        mo = num(t[2:], 1, 12) if t.startswith('--') and len(t) == 4 else None
+        return None if mo is None else (0, mo, 0, tz, False)
+    if kind == 'gMonthDay':
+        if not (t.startswith('--') and len(t) == 7 and t[4] == '-'):
+            return None
+        mo, d = num(t[2:4], 1, 12), num(t[5:7], 1, 31)
+        return None if mo is None or d is None else (0, mo, d, tz, False)
+    d = num(t[3:], 1, 31) if t.startswith('---') and len(t) == 5 else None
+    return None if d is None else (0, 0, d, tz, False)
 
 
 PY_SPACES = [' ', '\t', '\n', '\r', '\x0b', '\x0c', '\x1c', '\x1f', '\x85', '\xa0', '\u2003', '\u3000']
@@ -894,6 +1003,30 @@ def gen_lex_cases(rng, n):
                 text = text.replace('.', rng.choice(['.', ',', '..', '. ']), 1) + ('.' if rng.random() < 0.3 else '')
             intent = '?'     # decided below: still valid only if the mutation happened to give the same/another valid literal
         cases.append({'op': 'lexdt', 'via': rng.choice(['api', 'xpath']), 'ver': ver, 'k': kind, 's': text, 'intent': intent})
+    for _ in range(n // 3):
+        kind = rng.choice(list(G_KINDS))
+        ver = rng.choice(['1.0', '1.1'])
+        y = rng.choice([0, 1, -1, -4, 45, 2000, 9999, 10000, -10000, 123456, gen_year(rng, False)])
+        f = [y, rng.choice([1, 2, 12, 0, 13, rng.randint(1, 12)]), rng.choice([1, 28, 29, 30, 31, 0, 32]), rng.choice(TZS + [rng.randint(-840, 840)])]
+        text = g_lexical(kind, ver, f)
+        r = rng.random()
+        if r < 0.5:
+            pass
+        elif r < 0.6:
+            text = rng.choice(PY_SPACES) * rng.randint(0, 2) + text + rng.choice(PY_SPACES) * rng.randint(0, 2)
+        else:
+            m = rng.random()
+            if m < 0.3:
+                i = rng.randrange(len(text))
+                text = text[:i] + text[i + 1:]
+            elif m < 0.6:
+                i = rng.randrange(len(text) + 1)
+                text = text[:i] + rng.choice(['0', '-', ':', 'Z', '+', ' ', '\u0663', 'x']) + text[i:]
+            elif m < 0.8:
+                text = text + rng.choice(['z', '+14:01', '+15:00', '+1:00', 'ZZ', '-00:60', '-05:00'])
+            else:
+                text = ('0' + text) if text[0].isdigit() else text.replace('-', '+', 1)
+        cases.append({'op': 'lexdt', 'via': rng.choice(['api', 'xpath']), 'ver': ver, 'k': kind, 's': text})
     return cases
 
 
@@ -908,6 +1041,11 @@ def gen_dur_cases(rng, n):
         else:
             x = rng.choice([0, 1, -1, 10 ** 6, -10 ** 6, 2 * 10 ** 6, US, -US, 500000, 1500000, 2500000, rng.randint(-10 ** 15, 10 ** 15)])
         r = rng.random()
+        if r < 0.08:
+            y = rng.choice([0, 1, -1, 3, -16, 7, x, 12, rng.randint(-10 ** 6, 10 ** 6)]) if ym else \
+                rng.choice([0, 10 ** 6, 7 * 10 ** 6, -3, x, US, rng.randint(-10 ** 15, 10 ** 15)])
+            cases.append({'op': 'durdiv', 'k': 'ym' if ym else 'dt', 'x': x, 'y': y})
+            continue
         if r < 0.25:
             y = rng.choice([0, 1, -1, x, -x, 13, 2 ** 31, -2 ** 31, rng.randint(-10 ** 6, 10 ** 6)]) if ym else \
                 rng.choice([0, 1, -1, x, -x, US, 10 ** 6 - 1, rng.randint(-10 ** 15, 10 ** 15)])
@@ -1001,13 +1139,21 @@ EXT_CORPUS = [
     {'op': 'gcast', 'k': 'gMonthDay', 'cls': 'dt11', 'a': (1999, 2, 28, 0, 0)},
     {'op': 'gcmp', 'ver': '1.0', 'k': 'gDay', 'fa': [1, 1, 1, 840], 'fb': [1, 1, 1, -600], 'itz': None},
     {'op': 'gcmp', 'ver': '1.0', 'k': 'gDay', 'fa': [1, 1, 31, None], 'fb': [1, 1, 31, 0], 'itz': 840},
-    {'op': 'cmpctx', 'cls': 'dt10', 'a': (2002, 2, 1, 0, None), 'b': (2002, 1, 31, 74220 * 10 ** 6, 0), 'itz': 840},   # F11n
+    {'op': 'cmpctx', 'cls': 'dt10', 'a': (2002, 2, 1, 0, None), 'b': (2002, 1, 31, 74220 * 10 ** 6, 0), 'itz': 840},   # F11n (fixed)
+    {'op': 'seqfn', 'cls': 'dt10', 'fn': 'max', 'a': (2002, 2, 1, 0, None), 'b': (2002, 1, 31, 74220 * 10 ** 6, 0), 'itz': 840},   # F11t
+    {'op': 'seqfn', 'cls': 'dt10', 'fn': 'distinct', 'a': (2002, 2, 1, 0, None), 'b': (2002, 1, 31, 36000 * 10 ** 6, 0), 'itz': 840},
+    {'op': 'fmtcomp', 'cls': 'dt11', 'a': (-820, 3, 7, 32703250000, 330)}, {'op': 'fmtcomp', 'cls': 'd10', 'a': (-1, 3, 7, 0, None)},
+    {'op': 'fmtcomp', 'cls': 't', 'a': (2000, 1, 1, 1, 0)},
+    {'op': 'durdiv', 'k': 'dt', 'x': 0, 'y': 0}, {'op': 'durdiv', 'k': 'ym', 'x': 0, 'y': 0}, {'op': 'durdiv', 'k': 'ym', 'x': 1, 'y': 3}, {'op': 'durdiv', 'k': 'ym', 'x': 40, 'y': -16}, {'op': 'durdiv', 'k': 'dt', 'x': US, 'y': 7 * 10 ** 6},
+    {'op': 'tadd', 'via': 'xpath', 'a': (2000, 1, 1, 82800 * 10 ** 6, None), 'dur': 3000000 * US + 7200 * 10 ** 6},   # F11o (fixed)
     {'op': 'cmpctx', 'cls': 'd11', 'a': (2002, 2, 1, 0, None), 'b': (2002, 2, 1, 0, 0), 'itz': 840, 'general': True},
 ]
 
 
 # ----------------------------------------------------------------------- correspondence
-SITES = {'lexdt': 'AbstractDateTime.fromstring (pattern, year/microsecond handling) + __str__',
+SITES = {'fmtcomp': 'fn:format-dateTime/date/time numeric components [Y][E][M][D][H][m][s][f][Z]',
+         'seqfn': 'fn:max/min/distinct-values/index-of/deep-equal/sort on date/time values', 'durdiv': 'duration div duration',
+         'lexdt': 'AbstractDateTime.fromstring (pattern, year/microsecond handling) + __str__',
          'durop': 'YearMonthDuration/DayTimeDuration __add__ __sub__ __mul__ __truediv__', 'dcast': 'DateTime.make / Date.make',
          'tmk': 'Time.__init__', 'tadd': 'Time.__add__', 'tsub': 'Time.__sub__', 'tdiff': 'Time.__sub__(Time)', 'tcmp': '_compare (xs:time)',
          'tadjust': 'adjust_datetime (Time)', 'gmk': 'Gregorian*.__init__/fromstring/__str__', 'gcast': 'Gregorian*.make', 'gcmp': '_compare (g-types)',
@@ -1041,6 +1187,12 @@ def resolve_lex_intents(run: Run, cases: list) -> None:
             f = xsd_lexical(c['k'], c['s'])
             if f is None:
                 c['_spec'] = 'ERR:ValueError'
+                continue
+            if c['k'] in G_KINDS:
+                y_, mo_, d_, tz_, neg_ = f
+                if y_ == 0 and neg_:
+                    y_ = 0
+                todo.append((c, {'op': 'gmk', 'ver': c.get('ver', '1.0'), 'k': c['k'], 'f': [y_, mo_, d_, tz_]}))
                 continue
             neg, year, mo, d, h, mi, sec, us, tz = f
             if c['k'] == 'time':
@@ -1091,6 +1243,47 @@ def compare(run: Run, cases: list, record=True) -> list:
             if op == 'cmp' and case['a'][0] != case['b'][0] and abs(case['a'][0] - case['b'][0]) <= 2:
                 st.count('cmp:contiguous-years')
         tags = finding_tags(ans)
+        if case['op'] == 'fmtcomp' and case['a'][4] is None:
+            tags = tags + ['F11y']      # trigger of F11y: the value has no timezone (and the picture has a [Z] component)
+        if case['op'] == 'seqfn':
+            # the functions are functions of the comparison results: derive their value on (a, b) from the five bits of
+            # the library's raw `_compare` (model0), of the comparison under the implicit timezone (spec)
+            def derive(bits):
+                lt, le, eq, gt, ge = (c == '1' for c in bits)
+                fn = case['fn']
+                if fn == 'max':
+                    return vstr(case['b']) if lt else vstr(case['a'])
+                if fn in ('min', 'sort'):
+                    return vstr(case['b']) if gt else vstr(case['a'])
+                if fn == 'distinct':
+                    return '1' if eq else '2'
+                return '1' if eq else '0'
+            model, spec = derive(answer_field(ans, 'model0')), derive(spec)
+            tags = tags + (['F11t'] if answer_field(ans, 'inN') == '1' else [])
+        if case['op'] == 'durdiv':
+            from fractions import Fraction
+            x, y = case['x'], case['y']
+            if y == 0:
+                model = spec = 'ERR:FOAR0001'
+            else:
+                # xs:decimal quotient, correctly rounded (half even) to the 28 significant digits of the decimal context
+                q = Fraction(x, y)
+                if q == 0:
+                    model = spec = '0E0'
+                else:
+                    e = 0
+                    aq = abs(q)
+                    while aq >= 10 ** 28:
+                        aq /= 10; e += 1
+                    while aq < 10 ** 27:
+                        aq *= 10; e -= 1
+                    n_, r_ = divmod(aq.numerator, aq.denominator)
+                    if 2 * r_ > aq.denominator or (2 * r_ == aq.denominator and n_ % 2 == 1):
+                        n_ += 1
+                    ds = str(n_)
+                    while ds.endswith('0'):
+                        ds = ds[:-1]; e += 1
+                    model = spec = ('-' if q < 0 else '') + ds + 'E' + str(e)
         if case['op'] == 'lexdt':
             # the specification side: the value the generator intended (valid field tuple -> the constructor's spec value,
             # computed by the driver for the companion `mk`/`tmk` line), or a rejection for a string outside the lexical space
@@ -1099,18 +1292,11 @@ def compare(run: Run, cases: list, record=True) -> list:
                 spec = spec + '|' + model.split('|', 1)[1]   # string form: compared against the model's formatter
         if case['op'] == 'durop':
             # F&O: FODT0002 for overflow *and* for a zero divisor; the datatypes API raises OverflowError / ZeroDivisionError;
-            # the `div` operator reports the overflow as FOAR0002 (noted in docs/C11.md)
             rng_err = {'ERR:OverflowError', 'ERR:ZeroDivisionError', 'ERR:FODT0002'}
             impl, model, spec = ('ERR:duration-range' if x in rng_err else x for x in (impl, model, spec))
         if case['op'] == 'gcmp':
             # only eq / ne exist for the Gregorian partial types: (eq, ne) from the eq bit of the 5 operators
             model, spec = (x[2] + ('0' if x[2] == '1' else '1') for x in (model, spec))
-        model0 = answer_field(ans, 'model0')
-        if 'F11n' in tags and impl != spec and model0 is not None:
-            # until fix-c11-2 is in the tree the operators ignore the implicit timezone: `_compare` on the raw operands
-            m0 = model0 if case['op'] != 'gcmp' else model0[2] + ('0' if model0[2] == '1' else '1')
-            if impl == m0:
-                model = m0
         site = SITES.get(case['op'], '')
         if impl != spec:
             # property violated on the real code (listed finding iff the trigger predicate holds)
@@ -1157,7 +1343,7 @@ def hist_subcases(case: dict) -> list:
         elif k in ('add', 'sub'):
             out.append({'op': k, 'cls': ck, 'a': a, 'dur': st[1]})
         elif k == 'cmp':
-            # value comparisons: spec = order under the implicit timezone; the code ignores it (finding F11n)
+            # value comparisons: spec = order under the implicit timezone (model: compareCtx, since fix-c11-2)
             out.append({'op': 'cmp', 'cls': ck, 'a': a, 'b': tuple(st[1]), 'itz': itz})
         elif k == 'diff':
             # arithmetic operators fill the implicit timezone into copies of the operands (get_operands)
@@ -1344,11 +1530,6 @@ def compare_hist(run: Run, cases: list, record=True) -> list:
                     continue
                 model, spec, ink = parse_answer(ans)
                 tags = finding_tags(ans)
-                if record and 'F11n' in tags:
-                    st.count('inN(F11n)')
-                model0 = answer_field(ans, 'model0')
-                if 'F11n' in tags and res != spec and res == model0:
-                    model = model0          # tree without fix-c11-2: implicit timezone ignored by comparisons
                 if res != spec:
                     d = Disagreement(prefix, res, model, spec, what='history-result:' + case['steps'][k][0],
                                      site='value reused after ' + ','.join(x[0] for x in case['steps'][:k]) or 'first call', tags=tags)
@@ -1477,6 +1658,119 @@ def shrink_hist(d: Disagreement) -> Disagreement:
     return best
 
 
+# ------------------------------------------------------------------- one call site, many arguments
+# The SAME parsed token / Selector is evaluated repeatedly with DIFFERENT variable maps and implicit timezones,
+# through evaluate(), select(), Selector.select() and Selector.iter_select(); every result is compared with the
+# model/spec of that single operation on that argument (anything memoised on the token or on a value shows up).
+REUSE_TEMPLATES = [
+    ('adjust', lambda ck, st: step_exprs(ck, st)[0]),
+    ('add', lambda ck, st: step_exprs(ck, st)[0]),
+    ('comp', lambda ck, st: '(' + ', '.join(step_exprs(ck, st)) + ')'),
+    ('cmp', lambda ck, st: '(' + ', '.join(step_exprs(ck, st)) + ')'),
+    ('diff', lambda ck, st: step_exprs(ck, st)[0]),
+]
+
+
+def gen_reuse(rng):
+    ck = rng.choice(['dt10', 'dt11', 'd10', 'd11', 't'])
+    kind = rng.choice(['adjust', 'adjust1', 'adjustvar', 'adjustvar', 'add', 'comp', 'cmp', 'diff'])
+    proto = gen_hist(rng, ck=ck, mode='var')
+    base = tuple(proto['a'])
+    if kind == 'adjust':
+        st = ['adjust', rng.choice(HIST_TZ2)]
+    elif kind == 'adjust1':
+        st = ['adjust1']                 # the implicit timezone of each call's context is the new timezone
+    elif kind == 'adjustvar':
+        st = ['adjustvar']               # the new timezone comes from the variable $z of each call
+    elif kind == 'add':
+        st = [rng.choice(['add', 'sub']), rng.choice([10 ** 6, US, 3600 * 10 ** 6, 86399 * 10 ** 6])]
+    elif kind == 'comp':
+        st = ['comp']
+    else:
+        w = of_local(local_us(base) + rng.choice([-1, 1]) * rng.randrange(0, 30 * 3600 * 10 ** 6), rng.choice([None, 0, 600]))
+        if is_date(ck):
+            w = w[:3] + (0,) + w[4:]
+        if ck == 't':
+            w = (2000, 1, 1) + w[3:]
+        st = [kind, list(w)]
+    args = []
+    for _ in range(rng.randint(3, 6)):
+        v = tuple(gen_hist(rng, ck=ck, mode='var')['a'])
+        if rng.random() < 0.3:
+            v = base                                     # the same value again after others
+        args.append([list(v), rng.choice([None, None, -300, 0, 840]), rng.choice(['evaluate', 'select', 'Selector.select', 'Selector.iter_select']),
+                     rng.choice(HIST_TZ2)])
+    return {'op': 'reuse', 'cls': ck, 'step': st, 'args': args}
+
+
+def compare_reuse(run: Run, cases: list, record=True) -> list:
+    from elementpath import XPath2Parser, XPathContext, Selector
+    import xml.etree.ElementTree as ET
+    if not _ROOT:
+        _ROOT.append(ET.XML('<A/>'))
+    subs = []
+    for c in cases:
+        for v, itz, _, tz2 in c['args']:
+            st_ = ['adjust', tz2] if c['step'][0] == 'adjustvar' else c['step']
+            subs.append(hist_subcases({'cls': c['cls'], 'a': v, 'itz': itz, 'steps': [st_]})[0])
+    answers = iter(run.driver('C11', [line_of(sc) for sc in subs]))
+    out = []
+    for c in cases:
+        ck, st = c['cls'], c['step']
+        ver = '1.0' if ck == 't' else version_of(ck)
+        exprs = ['adjust-%s-to-timezone($d, $z)' % _tname(ck)] if st[0] == 'adjustvar' else step_exprs(ck, st)
+        expr = exprs[0] if len(exprs) == 1 else '(' + ', '.join(exprs) + ')'
+        parser = _PARSERS.get(('reuse', ver))
+        if parser is None:
+            parser = _PARSERS[('reuse', ver)] = XPath2Parser(xsd_version=ver)
+        token = parser.parse(expr)
+        selector = Selector(expr, parser=XPath2Parser, xsd_version=ver)
+        if record:
+            run.stats.case({'reuse': c}, nontrivial=True)
+            run.stats.count('op:reuse')
+            run.stats.count('reuse:step=' + st[0])
+        for k, (v, itz, path, tz2) in enumerate(c['args']):
+            ans = next(answers)
+            model, spec, _ = parse_answer(ans)
+            tags = finding_tags(ans)
+            try:
+                obj = build_obj(ck, tuple(v))
+                before = obj_state(obj)
+                from elementpath.datatypes import DayTimeDuration as _DTD
+                kw = {'variables': {'d': obj, 'z': [] if tz2 is None else _DTD(seconds=tz2 * 60)}, 'timezone': tzobj(itz)}
+                if path == 'evaluate':
+                    r = token.evaluate(XPathContext(root=_ROOT[0], **kw))
+                elif path == 'select':
+                    r = list(token.select(XPathContext(root=_ROOT[0], **kw)))
+                elif path == 'Selector.select':
+                    r = selector.select(_ROOT[0], **kw)
+                else:
+                    r = list(selector.iter_select(_ROOT[0], **kw))
+                items = r if isinstance(r, list) else [r]
+                res = step_canon(ck, ['adjust'] if st[0] == 'adjustvar' else st, items)
+                after = obj_state(obj)
+            except Exception as e:
+                res, before, after = err_text(e), '', ''
+            if record:
+                run.stats.count('reuse:path=' + path)
+            what = None
+            if res != spec:
+                what, d = 'reuse-result:' + st[0], Disagreement(dict(c, failing_call=k), res, model, spec, what='reuse-result:' + st[0],
+                                                                 site=f'same token, call {k + 1} via {path}', tags=tags)
+            elif res != model:
+                what, d = 'reuse-model', Disagreement(dict(c, failing_call=k), res, model, None, what='reuse-result-model', site=path)
+            elif before != after:
+                what, d = 'mut', Disagreement(dict(c, failing_call=k), 'argument after: ' + after, 'argument before: ' + before,
+                                               'argument before: ' + before, what='reuse-argument-mutated:' + st[0], site=path)
+            if what:
+                run.disagree(d)
+                out.append(d)
+                for _ in range(len(c['args']) - k - 1):
+                    next(answers)
+                break
+    return out
+
+
 def jsonable(c):
     return json.loads(json.dumps(c))
 
@@ -1490,7 +1784,8 @@ def correspond(run: Run) -> None:
         'year 0), todelta, fromdelta, fromdelta∘todelta, ± dayTimeDuration (durations chosen to land on year/era '
         'boundaries, leap days, 1st of January with a time part), ± yearMonthDuration (incl. era crossings), '
         'difference, the five comparisons, adjust-dateTime-to-timezone, lexical year numbering (string(), '
-        'year-from-*), duration comparison, CPython date.fromordinal; plus HISTORIES: one value object (passed via variables=, or bound '
+        'year-from-*), duration comparison, CPython date.fromordinal; REUSE: one parsed token / Selector evaluated 3-6 times with different '
+        'variable maps and implicit timezones through evaluate / select / Selector.select / Selector.iter_select; plus HISTORIES: one value object (passed via variables=, or bound '
         'by for/let) goes through 2-4 adjust-*-to-timezone / component-extraction / ± duration / comparison / difference calls, each '
         'result compared with model and spec computed from the ORIGINAL value and the argument object compared with its state before '
         'the call (xs:dateTime, xs:date, xs:time; with and without implicit timezone); classes DateTime/DateTime10/Date/Date10; 30% through '
@@ -1500,6 +1795,7 @@ def correspond(run: Run) -> None:
         compare(run, cases[i:i + 20000])
     compare(run, [dict(c) for c in EXT_CORPUS] + gen_ext_cases(rng, run.scale(5000, 80000)) + gen_dur_cases(rng, run.scale(3000, 50000))
             + gen_lex_cases(rng, run.scale(4000, 60000)))
+    compare_reuse(run, [gen_reuse(rng) for _ in range(run.scale(300, 6000))])
     hists = [dict(c) for c in HIST_CORPUS] + [gen_hist(rng) for _ in range(run.scale(3000, 40000))]
     for i in range(0, len(hists), 5000):
         compare_hist(run, hists[i:i + 5000])
@@ -1595,6 +1891,8 @@ def shrink(d: Disagreement) -> Disagreement:
     case = d.case
     if isinstance(case, dict) and case.get('op') == 'hist':
         return shrink_hist(d)
+    if isinstance(case, dict) and case.get('op') == 'reuse':
+        return d
     if not isinstance(case, dict) or py_expected(case) is None:
         return d
 
@@ -1663,7 +1961,7 @@ def body(run: Run) -> int:
         'the XSD/F&O reading in EPV/Spec/Timeline.lean (astronomical years, instants in µs, implicit timezone Z)']
     run.assumptions += [
         'years within ±2^31 and durations within ±2^62 s (constructor limits of the library, accepted)',
-        'known finding F11o: xs:time ± duration whose proxy date leaves years 1..9999 raises FODT0001; '
+        'known finding F11t: max/min/distinct-values/index-of/deep-equal/sort ignore the implicit timezone; '
         'known finding F11d: timeline offsets beyond the timedelta range (|days| > 999999999, |year| ≳ 2.7 million) '
         'raise OverflowError (FODT0001 through XPath); theorems carry the hypothesis TdOk',
         'durations: × ÷ by xs:double through the datatypes API uses binary64 products (computed by the harness with Python floats, '
